@@ -73,6 +73,13 @@ def run_all(ctx, focus):
     validate(ctx, t, "seq")
     ctx.sample({"recorded_trace_prefix": summaries["seq"]["sample"]})
     if focus == "hits":
+        # capacity below the size of the larger items: put accepts them, the scan of a re-open skips them (files that
+        # exist but are not tracked), then refill and read
+        t = os.path.join(w, "seq_oversize.ndjson")
+        summaries["seq_oversize"] = vlib.xv("chunkcache", mode="seq", n=30 * k, ops=60, seed=ctx.seed + 1, keys=2, nch=4, capx=1,
+                                            capdiv=2, out=t)
+        validate(ctx, t, "seq-oversize")
+    if focus == "hits":
         t = os.path.join(w, "faults.ndjson")
         summaries["faults"] = vlib.xv("chunkcache", mode="faults", stride=1 if thorough else 4, seed=ctx.seed, keys=2, nch=3,
                                       capx=4, out=t)
